@@ -1,0 +1,79 @@
+//go:build verif
+
+package crypto
+
+// Contracts for the deductive checks in /verif (tool: govc). This file holds comments only and is
+// compiled only with the build tag `verif`; see /verif/DESIGN.md for the contract language.
+// Spec functions (hrs_lt, inv_pv, lss_json, vote_sb, ...) live in /verif/spec/crypto.spec.
+
+//@ func (lss *SFilePVLastSignState) CheckHRS(height, round, step)
+//@   pure
+//@   nopanic
+//@   requires lss != nil
+//@   requires lss.SignBytes != nil ==> lss.Signature != nil
+//@   ensures hrs_lt(height, round, step, lss) ==> result0 == false && result1 != nil                          [C20]
+//@   ensures hrs_eq(height, round, step, lss) && lss.SignBytes != nil ==> result0 == true && result1 == nil   [C20]
+//@   ensures hrs_eq(height, round, step, lss) && lss.SignBytes == nil ==> result0 == false && result1 != nil  [C20]
+//@   ensures hrs_gt(height, round, step, lss) ==> result0 == false && result1 == nil                          [C20]
+
+//@ func (lss *SFilePVLastSignState) Save()
+//@   requires lss != nil
+//@   modifies disk
+//@   ensures disk == store(old(disk), lss.filePath, lss_json(lss))                                            [C20]
+
+//@ func (pv *SFilePV) saveSigned(height, round, step, signBytes, sig)
+//@   requires pv != nil
+//@   modifies pv.LastSignState.*, disk
+//@   ensures pv.LastSignState.Height == height && pv.LastSignState.Round == round && pv.LastSignState.Step == step   [C20]
+//@   ensures pv.LastSignState.Signature == sig && pv.LastSignState.SignBytes == signBytes                      [C20]
+//@   ensures pv.LastSignState.filePath == old(pv.LastSignState.filePath)                                       [C20]
+//@   ensures disk == store(old(disk), pv.LastSignState.filePath, lssenc(height, round, step, sig, signBytes))  [C20]
+
+//@ func checkVotesOnlyDifferByTimestamp(lastSignBytes, newSignBytes)
+//@   trusted
+//@   pure
+//@   ensures result1 == only_ts_differs(content(lastSignBytes), content(newSignBytes))
+
+//@ func checkProposalsOnlyDifferByTimestamp(lastSignBytes, newSignBytes)
+//@   trusted
+//@   pure
+//@   ensures result1 == only_ts_differs_p(content(lastSignBytes), content(newSignBytes))
+
+//@ func (pv *SFilePV) signVote(chainID, vote)
+//@   nopanic
+//@   requires pv != nil && vote != nil
+//@   requires vote.Type == 1 || vote.Type == 2
+//@   requires inv_pv(pv)
+//@   modifies pv.LastSignState.*, disk, vote.Signature, vote.Timestamp
+//@   ensures inv_pv(pv)                                                                                        [C20]
+//@   ensures result != nil ==> vote.Signature == old(vote.Signature) && lss_same(pv) && disk == old(disk)      [C20]
+//@   ensures result == nil ==> old(!hrs_lt(vote.Height, vote.Round, step_of(vote), pv.LastSignState))          [C20]
+//@   ensures result == nil && old(hrs_eq(vote.Height, vote.Round, step_of(vote), pv.LastSignState)) ==>
+//@           lss_same(pv) && disk == old(disk) && vote.Signature == old(pv.LastSignState.Signature) &&
+//@           (old(vote_sb(chainID, vote)) == old(content(pv.LastSignState.SignBytes)) ||
+//@            only_ts_differs(old(content(pv.LastSignState.SignBytes)), old(vote_sb(chainID, vote))))           [C20]
+//@   ensures result == nil && old(hrs_gt(vote.Height, vote.Round, step_of(vote), pv.LastSignState)) ==>
+//@           pv.LastSignState.Height == vote.Height && pv.LastSignState.Round == vote.Round &&
+//@           pv.LastSignState.Step == step_of(vote) &&
+//@           content(pv.LastSignState.SignBytes) == old(vote_sb(chainID, vote)) &&
+//@           pv.LastSignState.Signature == vote.Signature                                                      [C20]
+//@   assert@store(Vote.Signature,2): disk[pv.LastSignState.filePath] == lssenc(vote.Height, vote.Round, step_of(vote), $value, signBytes)   [C20]
+
+//@ func (pv *SFilePV) signProposal(chainID, proposal)
+//@   nopanic
+//@   requires pv != nil && proposal != nil
+//@   requires inv_pv(pv)
+//@   modifies pv.LastSignState.*, disk, proposal.Signature, proposal.Timestamp
+//@   ensures inv_pv(pv)                                                                                        [C20]
+//@   ensures result != nil ==> proposal.Signature == old(proposal.Signature) && lss_same(pv) && disk == old(disk)   [C20]
+//@   ensures result == nil ==> old(!hrs_lt(proposal.Height, proposal.Round, 1, pv.LastSignState))              [C20]
+//@   ensures result == nil && old(hrs_eq(proposal.Height, proposal.Round, 1, pv.LastSignState)) ==>
+//@           lss_same(pv) && disk == old(disk) && proposal.Signature == old(pv.LastSignState.Signature) &&
+//@           (old(proposal_sb(chainID, proposal)) == old(content(pv.LastSignState.SignBytes)) ||
+//@            only_ts_differs_p(old(content(pv.LastSignState.SignBytes)), old(proposal_sb(chainID, proposal))))  [C20]
+//@   ensures result == nil && old(hrs_gt(proposal.Height, proposal.Round, 1, pv.LastSignState)) ==>
+//@           pv.LastSignState.Height == proposal.Height && pv.LastSignState.Round == proposal.Round &&
+//@           pv.LastSignState.Step == 1 &&
+//@           content(pv.LastSignState.SignBytes) == old(proposal_sb(chainID, proposal)) &&
+//@           pv.LastSignState.Signature == proposal.Signature                                                  [C20]
+//@   assert@store(Proposal.Signature,2): disk[pv.LastSignState.filePath] == lssenc(proposal.Height, proposal.Round, 1, $value, signBytes)   [C20]
